@@ -47,13 +47,14 @@ def validate_trace(trace, n_records):
 def run(prop, tier):
     lib.build_harness()
     out = lib.Outcome(prop, tier, "model_checking")
-    plans = [("MC_ZyCoverage_q.cfg", "q", None)]
+    # "wide": every set of patterns over a data type with 11 constructors (more than the 9 missing patterns ever reported)
+    plans = [("MC_ZyCoverage_q.cfg", "q", None), ("MC_ZyCoverage_wide.cfg", "wide", None)]
     seed = lib.seed()
     simargs = ["num=1000000", "-depth", "5", "-seed", str(seed)]
     if tier == "quick":
         plans.append(("MC_ZyCoverage_sim.cfg", "sim", simargs))
     else:
-        plans += [("MC_ZyCoverage_t4.cfg", "t4", None), ("MC_ZyCoverage_q2.cfg", "q2", None),
+        plans += [("MC_ZyCoverage_widein.cfg", "widein", None), ("MC_ZyCoverage_t4.cfg", "t4", None), ("MC_ZyCoverage_q2.cfg", "q2", None),
                   ("MC_ZyCoverage_sim.cfg", "sim", simargs)]
     states = transitions = replayed = 0
     samples, per = [], {}
